@@ -8,6 +8,14 @@
 // Registers REAL typed tools with mcp.AddTool on real Servers, connects real Clients over in-memory
 // transports, performs one tools/call per case and records what the handler saw and what the client
 // received (VERIF_OUT) for the TLA+ monitor spec/TypedToolMon.tla.
+//
+// Interleaving dimension (spec/TypedToolConc.tla): lines of kind "conc" are scenarios of several calls in
+// flight on one server. Their steps invoke / produce / respond are replayed in the TLC-generated order
+// inside a testing/synctest bubble: a gate in the typed handler (produce = the handler returns, the
+// wrapper marshals the output and builds the result) and a gate in a receiving middleware of the server
+// after next() (respond = the result is encoded and written to the connection); after every step
+// synctest.Wait() waits until the step has run to its end. No sleeps. Every call of a scenario is
+// recorded as its own line, judged by the monitor against ITS OWN case.
 package mcp_test
 
 import (
@@ -19,10 +27,13 @@ import (
 	"math"
 	"math/rand/v2"
 	"os"
+	"runtime"
 	"sort"
 	"strconv"
 	"strings"
+	"sync"
 	"testing"
+	"testing/synctest"
 	"time"
 
 	"github.com/modelcontextprotocol/go-sdk/jsonrpc"
@@ -301,6 +312,19 @@ type c16Line struct {
 	// echoed for the report only
 	Valid bool `json:"valid"`
 	Lead  bool `json:"lead"`
+	// concurrent scenarios (kind "conc"): the schedule [[step, call], ...] with step = invoke | produce |
+	// respond, the case of every call, GOMAXPROCS for the replay (0 = leave it)
+	Scn   int                 `json:"scn,omitempty"`
+	Procs int                 `json:"procs,omitempty"`
+	Sched [][2]string         `json:"sched,omitempty"`
+	Calls map[string]*c16Line `json:"calls,omitempty"`
+}
+
+// the case of one call of a concurrent scenario, as it is echoed in the observation line
+type c16ConcCase struct {
+	*c16Line
+	Scn int    `json:"scn"`
+	Who string `json:"who"`
 }
 
 type c16InObs struct {
@@ -309,46 +333,158 @@ type c16InObs struct {
 	Seen    any  `json:"seen"`
 	IsError bool `json:"isError"`
 	Proto   bool `json:"proto"`
+	// concurrent scenarios only: the index of the schedule step during which the handler was entered, the
+	// result reached the receiving middleware, the client got its answer; why a call got no answer
+	At   map[string]int `json:"at,omitempty"`
+	Fail string         `json:"fail,omitempty"`
 }
 
 type c16OutObs struct {
-	Ran     bool  `json:"ran"`
-	IsError bool  `json:"isError"`
-	Proto   bool  `json:"proto"`
-	HasSc   bool  `json:"hasSc"`
-	Sc      any   `json:"sc"`
-	Texts   []any `json:"texts"`
+	Ran     bool           `json:"ran"`
+	Calls   int            `json:"calls"`
+	IsError bool           `json:"isError"`
+	Proto   bool           `json:"proto"`
+	HasSc   bool           `json:"hasSc"`
+	Sc      any            `json:"sc"`
+	Texts   []any          `json:"texts"`
+	At      map[string]int `json:"at,omitempty"`
+	Fail    string         `json:"fail,omitempty"`
 }
 
-// state shared between the driver and the handlers (calls are strictly sequential)
-type c16State struct {
+type c16Res struct {
+	res *mcp.CallToolResult
+	err error
+}
+
+// one tools/call: its case, and what its handler did
+type c16Call struct {
+	line  *c16Line
+	plain any    // output cases: the handler output as a plain value
+	who   string // name of the call in a concurrent scenario ("" for a sequential call)
+	// gates of a concurrent scenario (nil for a sequential call)
+	hGate, sGate chan struct{}
+	cancel       context.CancelFunc
+	done         chan c16Res
+	// guarded by c16State.mu
 	calls int
 	seen  any
-	cur   *c16Line // current output case
-	plain any      // its handler output as a plain value
+	at    map[string]int
 }
 
-func (st *c16State) typed(dst any) {
-	if st.cur.Nilform {
+// state shared between the driver and the handlers
+type c16State struct {
+	mu   sync.Mutex
+	cur  *c16Call            // the call of a sequential tools/call (no _meta tag)
+	byID map[string]*c16Call // the calls of the running concurrent scenario, by their _meta tag
+	step int                 // index of the schedule step being replayed
+}
+
+const c16MetaKey = "c16call"
+
+// tagged returns the call of a concurrent scenario that req belongs to (nil: a sequential call).
+func (st *c16State) tagged(req *mcp.CallToolRequest) *c16Call {
+	id, ok := req.Params.Meta[c16MetaKey].(string)
+	if !ok {
+		return nil
+	}
+	st.mu.Lock()
+	defer st.mu.Unlock()
+	cl := st.byID[id]
+	if cl == nil {
+		panic("c16: request of unknown call " + id)
+	}
+	return cl
+}
+
+func (st *c16State) callOf(req *mcp.CallToolRequest) *c16Call {
+	if cl := st.tagged(req); cl != nil {
+		return cl
+	}
+	st.mu.Lock()
+	defer st.mu.Unlock()
+	return st.cur
+}
+
+func (st *c16State) mark(cl *c16Call, ev string) {
+	st.mu.Lock()
+	defer st.mu.Unlock()
+	if cl.at != nil {
+		cl.at[ev] = st.step
+	}
+}
+
+// enter is the first thing a handler does: count the invocation, then (concurrent scenario) wait for the
+// produce step. What the handler saw / returns is taken from its own arguments AFTER the gate.
+func (st *c16State) enter(req *mcp.CallToolRequest) *c16Call {
+	cl := st.callOf(req)
+	st.mu.Lock()
+	cl.calls++
+	if cl.at != nil {
+		cl.at["enter"] = st.step
+	}
+	st.mu.Unlock()
+	if cl.hGate != nil {
+		<-cl.hGate
+	}
+	return cl
+}
+
+func (st *c16State) saw(cl *c16Call, v any) {
+	st.mu.Lock()
+	defer st.mu.Unlock()
+	cl.seen = v
+}
+
+func (st *c16State) snapshot(cl *c16Call) (calls int, seen any, at map[string]int) {
+	st.mu.Lock()
+	defer st.mu.Unlock()
+	if cl.at != nil {
+		at = map[string]int{}
+		for k, v := range cl.at {
+			at[k] = v
+		}
+	}
+	return cl.calls, cl.seen, at
+}
+
+func (cl *c16Call) typed(dst any) {
+	if cl.line.Nilform {
 		return // leave Go's zero value: nil map / nil pointer / nil slice
 	}
-	if err := json.Unmarshal([]byte(c16Text(nil, st.plain)), dst); err != nil {
-		panic(fmt.Sprintf("c16: output %s does not fit %T: %v", st.cur.Out, dst, err))
+	if err := json.Unmarshal([]byte(c16Text(nil, cl.plain)), dst); err != nil {
+		panic(fmt.Sprintf("c16: output %s does not fit %T: %v", cl.line.Out, dst, err))
 	}
 }
 
-func c16AddOut[Out any](s *mcp.Server, st *c16State, name string, schema json.RawMessage, mk func() Out) {
+func c16AddOut[Out any](s *mcp.Server, st *c16State, name string, schema json.RawMessage, mk func(cl *c16Call) Out) {
 	tool := &mcp.Tool{Name: name}
 	if schema != nil {
 		tool.OutputSchema = schema
 	}
 	mcp.AddTool(s, tool, func(ctx context.Context, req *mcp.CallToolRequest, in map[string]any) (*mcp.CallToolResult, Out, error) {
-		st.calls++
+		cl := st.enter(req)
 		var res *mcp.CallToolResult
-		if st.cur.Content {
+		if cl.line.Content {
 			res = &mcp.CallToolResult{Content: []mcp.Content{&mcp.TextContent{Text: "mine"}}}
 		}
-		return res, mk(), nil
+		return res, mk(cl), nil
+	})
+}
+
+// c16Gate installs the respond gate: a receiving middleware that holds the result of a call of a concurrent
+// scenario after the typed-tool wrapper has produced it and before the connection encodes and writes it.
+func c16Gate(s *mcp.Server, st *c16State) {
+	s.AddReceivingMiddleware(func(next mcp.MethodHandler) mcp.MethodHandler {
+		return func(ctx context.Context, method string, req mcp.Request) (mcp.Result, error) {
+			res, err := next(ctx, method, req)
+			if ctr, ok := req.(*mcp.CallToolRequest); ok && ctr.Params != nil {
+				if cl := st.tagged(ctr); cl != nil {
+					st.mark(cl, "produced")
+					<-cl.sGate
+				}
+			}
+			return res, err
+		}
 	})
 }
 
@@ -357,46 +493,292 @@ func c16AddOut[Out any](s *mcp.Server, st *c16State, name string, schema json.Ra
 // by-type entry; otherwise the element-type tool comes first and the pointer tool finds the entry.
 func c16AddReflected(s *mcp.Server, st *c16State, ptrFirst bool) {
 	mcp.AddTool(s, &mcp.Tool{Name: "rin.InA"}, func(ctx context.Context, req *mcp.CallToolRequest, in c16InA) (*mcp.CallToolResult, any, error) {
-		st.calls++
-		st.seen = c16ViewA(in)
+		cl := st.enter(req)
+		st.saw(cl, c16ViewA(in))
 		return nil, nil, nil
 	})
 	mcp.AddTool(s, &mcp.Tool{Name: "rin.InB"}, func(ctx context.Context, req *mcp.CallToolRequest, in c16InB) (*mcp.CallToolResult, any, error) {
-		st.calls++
-		st.seen = c16ViewB(in)
+		cl := st.enter(req)
+		st.saw(cl, c16ViewB(in))
 		return nil, nil, nil
 	})
 	mcp.AddTool(s, &mcp.Tool{Name: "rin.InC"}, func(ctx context.Context, req *mcp.CallToolRequest, in c16InC) (*mcp.CallToolResult, any, error) {
-		st.calls++
-		st.seen = c16ViewC(in)
+		cl := st.enter(req)
+		st.saw(cl, c16ViewC(in))
 		return nil, nil, nil
 	})
 	addPtr := func() {
-		c16AddOut(s, st, "rout.ptr", nil, func() (v *c16OutS) { st.typed(&v); return })
-		c16AddOut(s, st, "rout.pint", nil, func() (v *int) { st.typed(&v); return })
+		c16AddOut(s, st, "rout.ptr", nil, func(cl *c16Call) (v *c16OutS) { cl.typed(&v); return })
+		c16AddOut(s, st, "rout.pint", nil, func(cl *c16Call) (v *int) { cl.typed(&v); return })
 	}
 	if ptrFirst {
 		addPtr()
 	}
-	c16AddOut(s, st, "rout.struct", nil, func() (v c16OutS) { st.typed(&v); return })
-	c16AddOut(s, st, "rout.strs", nil, func() (v []string) { st.typed(&v); return })
-	c16AddOut(s, st, "rout.rint", nil, func() (v int) { st.typed(&v); return })
+	c16AddOut(s, st, "rout.struct", nil, func(cl *c16Call) (v c16OutS) { cl.typed(&v); return })
+	c16AddOut(s, st, "rout.strs", nil, func(cl *c16Call) (v []string) { cl.typed(&v); return })
+	c16AddOut(s, st, "rout.rint", nil, func(cl *c16Call) (v int) { cl.typed(&v); return })
 	if !ptrFirst {
 		addPtr()
 	}
-	c16AddOut(s, st, "rout.rstr", nil, func() (v string) { st.typed(&v); return })
-	c16AddOut(s, st, "rout.rbool", nil, func() (v bool) { st.typed(&v); return })
+	c16AddOut(s, st, "rout.rstr", nil, func(cl *c16Call) (v string) { cl.typed(&v); return })
+	c16AddOut(s, st, "rout.rbool", nil, func(cl *c16Call) (v bool) { cl.typed(&v); return })
 }
 
 // Tools whose Go types (c16InC, c16OutS) also occur with an inferred schema, but which declare their own,
 // different schema (sin: tolerant of additional members and bounded; outsx: n <= 10).
 func c16AddExplicitStruct(s *mcp.Server, st *c16State, inC, outSX json.RawMessage) {
 	mcp.AddTool(s, &mcp.Tool{Name: "sin.InC", InputSchema: inC}, func(ctx context.Context, req *mcp.CallToolRequest, in c16InC) (*mcp.CallToolResult, any, error) {
-		st.calls++
-		st.seen = c16ViewC(in)
+		cl := st.enter(req)
+		st.saw(cl, c16ViewC(in))
 		return nil, nil, nil
 	})
-	c16AddOut(s, st, "out.outsx.structx", outSX, func() (v c16OutS) { st.typed(&v); return })
+	c16AddOut(s, st, "out.outsx.structx", outSX, func(cl *c16Call) (v c16OutS) { cl.typed(&v); return })
+}
+
+// c16BuildPlain builds the server without a SchemaCache: every explicit-schema tool of the schema lines
+// (In = map[string]any, Out = any on the input side; Out = any / typed on the output side), the reflected family
+// and the explicit-schema tools on struct types.
+func c16BuildPlain(t *testing.T, st *c16State, lines []*c16Line) (srv *mcp.Server, schemaInC, schemaOutSX json.RawMessage) {
+	srv = mcp.NewServer(&mcp.Implementation{Name: "c16-server", Version: "1"}, nil)
+	for _, l := range lines {
+		if l.Kind != "schema" {
+			continue
+		}
+		if l.Dir == "sin" {
+			schemaInC = l.Schema
+			continue
+		}
+		if l.Dir == "out" && l.ID == "outsx" {
+			schemaOutSX = l.Schema
+			continue
+		}
+		if l.Dir == "in" || l.Dir == "xin" {
+			mcp.AddTool(srv, &mcp.Tool{Name: l.Dir + "." + l.ID, InputSchema: l.Schema},
+				func(ctx context.Context, req *mcp.CallToolRequest, in map[string]any) (*mcp.CallToolResult, any, error) {
+					cl := st.enter(req)
+					st.saw(cl, c16Tag(in))
+					return nil, nil, nil
+				})
+			continue
+		}
+		c16AddOut(srv, st, "out."+l.ID+".any", l.Schema, func(cl *c16Call) any {
+			if cl.line.Nilform {
+				return nil
+			}
+			var v any
+			cl.typed(&v)
+			return v
+		})
+		switch {
+		case strings.HasPrefix(l.ID, "obj"):
+			c16AddOut(srv, st, "out."+l.ID+".map", l.Schema, func(cl *c16Call) (v map[string]any) { cl.typed(&v); return })
+		case l.ID == "arr":
+			c16AddOut(srv, st, "out.arr.ints", l.Schema, func(cl *c16Call) (v []int) { cl.typed(&v); return })
+		case l.ID == "int":
+			c16AddOut(srv, st, "out.int.int", l.Schema, func(cl *c16Call) (v int) { cl.typed(&v); return })
+		case l.ID == "enum":
+			c16AddOut(srv, st, "out.enum.str", l.Schema, func(cl *c16Call) (v string) { cl.typed(&v); return })
+		}
+	}
+	if schemaInC == nil || schemaOutSX == nil {
+		t.Fatal("c16: schema lines for sin/InC and out/outsx missing")
+	}
+	c16AddReflected(srv, st, false)
+	c16AddExplicitStruct(srv, st, schemaInC, schemaOutSX)
+	return srv, schemaInC, schemaOutSX
+}
+
+// c16NameArgs: the tool a case is served by and the JSON text of the arguments of its call.
+func c16NameArgs(r *rand.Rand, l *c16Line) (name, args string) {
+	if l.Kind == "out" {
+		name = "out." + l.Sid + "." + l.Okind
+		if l.Sid == "reflect" {
+			name = "rout." + l.Okind
+		}
+		return name, "{}"
+	}
+	return l.Kind + "." + l.Vid, c16Text(r, c16Untag(l.Args))
+}
+
+func c16NewCall(l *c16Line) *c16Call {
+	cl := &c16Call{line: l}
+	if l.Kind == "out" {
+		cl.plain = c16Untag(l.Out)
+	}
+	return cl
+}
+
+func c16InObsOf(st *c16State, cl *c16Call, res *mcp.CallToolResult, proto bool) c16InObs {
+	calls, seen, at := st.snapshot(cl)
+	o := c16InObs{Ran: calls > 0, Calls: calls, Seen: c16Null, Proto: proto, At: at}
+	if calls > 0 {
+		o.Seen = seen
+	}
+	if res != nil {
+		o.IsError = res.IsError
+	}
+	return o
+}
+
+func c16OutObsOf(st *c16State, cl *c16Call, res *mcp.CallToolResult, proto bool) c16OutObs {
+	calls, _, at := st.snapshot(cl)
+	o := c16OutObs{Ran: calls > 0, Calls: calls, Proto: proto, Sc: c16Null, Texts: []any{}, At: at}
+	if res != nil {
+		o.IsError = res.IsError
+		if res.StructuredContent != nil {
+			o.HasSc = true
+			o.Sc = c16Tag(res.StructuredContent)
+		}
+		for _, ct := range res.Content {
+			tc, ok := ct.(*mcp.TextContent)
+			if !ok {
+				o.Texts = append(o.Texts, []any{"bad", 0})
+				continue
+			}
+			var v any
+			if err := json.Unmarshal([]byte(tc.Text), &v); err != nil {
+				o.Texts = append(o.Texts, []any{"bad", 0})
+			} else {
+				o.Texts = append(o.Texts, c16Tag(v))
+			}
+		}
+	}
+	return o
+}
+
+// ---------------------------------------------------------------------------
+// concurrent scenarios
+
+type c16Pair struct {
+	cs *mcp.ClientSession
+	ss *mcp.ServerSession
+}
+
+func c16ConnectPair(t *testing.T, ctx context.Context, s *mcp.Server) c16Pair {
+	ct, st := mcp.NewInMemoryTransports()
+	ss, err := s.Connect(ctx, st, nil)
+	if err != nil {
+		t.Fatal(err)
+	}
+	cs, err := mcp.NewClient(&mcp.Implementation{Name: "c16-client", Version: "1"}, nil).Connect(ctx, ct, nil)
+	if err != nil {
+		t.Fatal(err)
+	}
+	return c16Pair{cs, ss}
+}
+
+func (p c16Pair) close() {
+	p.cs.Close()
+	p.ss.Close()
+}
+
+// c16RunConc replays the scenarios (all of one GOMAXPROCS setting) inside one synctest bubble on one server and
+// returns one observation row per call, scenario by scenario, calls in name order.
+func c16RunConc(t *testing.T, r *rand.Rand, schemas, scns []*c16Line, procs int) (rows []map[string]any) {
+	if procs > 0 {
+		defer runtime.GOMAXPROCS(runtime.GOMAXPROCS(procs))
+	}
+	synctest.Test(t, func(t *testing.T) {
+		ctx := context.Background()
+		st := &c16State{}
+		srv, _, _ := c16BuildPlain(t, st, schemas)
+		c16Gate(srv, st)
+		pair := c16ConnectPair(t, ctx, srv)
+		for _, sc := range scns {
+			calls := map[string]*c16Call{}
+			var names []string
+			for who, l := range sc.Calls {
+				cl := c16NewCall(l)
+				cl.who, cl.hGate, cl.sGate, cl.at = who, make(chan struct{}), make(chan struct{}), map[string]int{}
+				cl.done = make(chan c16Res, 1)
+				calls[who] = cl
+				names = append(names, who)
+			}
+			sort.Strings(names)
+			st.mu.Lock()
+			st.byID, st.step = calls, 0
+			st.mu.Unlock()
+			for k, step := range sc.Sched {
+				cl := calls[step[1]]
+				if cl == nil {
+					t.Fatalf("c16: scenario %d: step of unknown call %v", sc.Scn, step)
+				}
+				st.mu.Lock()
+				st.step = k
+				st.mu.Unlock()
+				switch step[0] {
+				case "invoke":
+					name, args := c16NameArgs(r, cl.line)
+					cctx, cancel := context.WithCancel(ctx)
+					cl.cancel = cancel
+					go func() {
+						res, err := pair.cs.CallTool(cctx, &mcp.CallToolParams{Meta: mcp.Meta{c16MetaKey: cl.who}, Name: name, Arguments: json.RawMessage(args)})
+						st.mark(cl, "got")
+						cl.done <- c16Res{res, err}
+					}()
+				case "produce":
+					close(cl.hGate)
+				case "respond":
+					close(cl.sGate)
+				default:
+					t.Fatalf("c16: scenario %d: unknown step %v", sc.Scn, step)
+				}
+				synctest.Wait() // the step has run to its end: every goroutine is blocked at a gate or idle
+			}
+			broken := false
+			for _, who := range names {
+				cl := calls[who]
+				var got c16Res
+				fail := ""
+				select {
+				case got = <-cl.done:
+				default:
+					// every step has been replayed and the client still has no answer
+					fail = "hung"
+					cl.cancel()
+					synctest.Wait()
+					select {
+					case got = <-cl.done:
+					default:
+						t.Fatalf("c16: scenario %d: call %s does not return after cancellation", sc.Scn, who)
+					}
+					got.res = nil
+				}
+				cl.cancel()
+				proto := got.err != nil
+				if proto && fail == "" {
+					var werr *jsonrpc.Error
+					if !errors.As(got.err, &werr) {
+						fail = "failed: " + got.err.Error()
+					}
+				}
+				if fail != "" {
+					broken = true
+				}
+				cc := c16ConcCase{cl.line, sc.Scn, who}
+				if cl.line.Kind == "out" {
+					o := c16OutObsOf(st, cl, got.res, proto)
+					o.Fail = fail
+					rows = append(rows, map[string]any{"c": cc, "o": o})
+				} else {
+					o := c16InObsOf(st, cl, got.res, proto)
+					o.Fail = fail
+					rows = append(rows, map[string]any{"c": cc, "o": o})
+				}
+			}
+			if broken { // do not let one lost answer decide the following scenarios: fresh sessions
+				pair.close()
+				synctest.Wait()
+				pair = c16ConnectPair(t, ctx, srv)
+			}
+		}
+		st.mu.Lock()
+		st.byID = nil
+		st.mu.Unlock()
+		pair.close()
+		synctest.Wait()
+	})
+	return rows
 }
 
 func c16Connect(t *testing.T, ctx context.Context, s *mcp.Server) *mcp.ClientSession {
@@ -449,55 +831,8 @@ func TestVerif_C16(t *testing.T) {
 	ctx := context.Background()
 	st := new(c16State)
 	impl := &mcp.Implementation{Name: "c16-server", Version: "1"}
-	plainSrv := mcp.NewServer(impl, nil)
-	var schemaInC, schemaOutSX json.RawMessage
-	// explicit schemas: In = map[string]any, Out = any (input side); Out = any / typed (output side)
-	for _, l := range lines {
-		if l.Kind != "schema" {
-			continue
-		}
-		if l.Dir == "sin" {
-			schemaInC = l.Schema
-			continue
-		}
-		if l.Dir == "out" && l.ID == "outsx" {
-			schemaOutSX = l.Schema
-			continue
-		}
-		if l.Dir == "in" || l.Dir == "xin" {
-			mcp.AddTool(plainSrv, &mcp.Tool{Name: l.Dir + "." + l.ID, InputSchema: l.Schema},
-				func(ctx context.Context, req *mcp.CallToolRequest, in map[string]any) (*mcp.CallToolResult, any, error) {
-					st.calls++
-					st.seen = c16Tag(in)
-					return nil, nil, nil
-				})
-			continue
-		}
-		c16AddOut(plainSrv, st, "out."+l.ID+".any", l.Schema, func() any {
-			if st.cur.Nilform {
-				return nil
-			}
-			var v any
-			st.typed(&v)
-			return v
-		})
-		switch {
-		case strings.HasPrefix(l.ID, "obj"):
-			c16AddOut(plainSrv, st, "out."+l.ID+".map", l.Schema, func() (v map[string]any) { st.typed(&v); return })
-		case l.ID == "arr":
-			c16AddOut(plainSrv, st, "out.arr.ints", l.Schema, func() (v []int) { st.typed(&v); return })
-		case l.ID == "int":
-			c16AddOut(plainSrv, st, "out.int.int", l.Schema, func() (v int) { st.typed(&v); return })
-		case l.ID == "enum":
-			c16AddOut(plainSrv, st, "out.enum.str", l.Schema, func() (v string) { st.typed(&v); return })
-		}
-	}
-	if schemaInC == nil || schemaOutSX == nil {
-		t.Fatal("c16: schema lines for sin/InC and out/outsx missing")
-	}
 	// no SchemaCache
-	c16AddReflected(plainSrv, st, false)
-	c16AddExplicitStruct(plainSrv, st, schemaInC, schemaOutSX)
+	plainSrv, schemaInC, schemaOutSX := c16BuildPlain(t, st, lines)
 	// "warm": the cache has been filled with the inferred schemas by an earlier Server; inferred tools first,
 	// then the explicit-schema tools of the same Go types
 	warm := mcp.NewSchemaCache()
@@ -542,10 +877,13 @@ func TestVerif_C16(t *testing.T) {
 	defer w.Flush()
 	enc := json.NewEncoder(w)
 
-	call := func(cs *mcp.ClientSession, name, args string) (*mcp.CallToolResult, bool) {
+	// sequential cases: one tools/call at a time, each answered before the next is sent
+	call := func(cs *mcp.ClientSession, cl *c16Call, name, args string) (*mcp.CallToolResult, bool) {
 		cctx, cancel := context.WithTimeout(ctx, 20*time.Second)
 		defer cancel()
-		st.calls, st.seen = 0, nil
+		st.mu.Lock()
+		st.cur = cl
+		st.mu.Unlock()
 		res, err := cs.CallTool(cctx, &mcp.CallToolParams{Name: name, Arguments: json.RawMessage(args)})
 		if err != nil {
 			var werr *jsonrpc.Error
@@ -558,48 +896,33 @@ func TestVerif_C16(t *testing.T) {
 		return res, false
 	}
 
+	var schemas []*c16Line
+	var conc [][]*c16Line // concurrent scenarios, in consecutive runs of one GOMAXPROCS setting
 	for _, l := range lines {
 		switch l.Kind {
+		case "schema", "goschema":
+			schemas = append(schemas, l)
 		case "in", "xin", "rin", "sin":
-			name := l.Kind + "." + l.Vid
-			res, proto := call(c16Session(t, sessions, l.Cache), name, c16Text(r, c16Untag(l.Args)))
-			o := c16InObs{Ran: st.calls > 0, Calls: st.calls, Seen: c16Null, Proto: proto}
-			if st.calls > 0 {
-				o.Seen = st.seen
-			}
-			if res != nil {
-				o.IsError = res.IsError
-			}
-			enc.Encode(map[string]any{"c": l, "o": o})
+			name, args := c16NameArgs(r, l)
+			cl := c16NewCall(l)
+			res, proto := call(c16Session(t, sessions, l.Cache), cl, name, args)
+			enc.Encode(map[string]any{"c": l, "o": c16InObsOf(st, cl, res, proto)})
 		case "out":
-			name := "out." + l.Sid + "." + l.Okind
-			if l.Sid == "reflect" {
-				name = "rout." + l.Okind
+			name, args := c16NameArgs(r, l)
+			cl := c16NewCall(l)
+			res, proto := call(c16Session(t, sessions, l.Cache), cl, name, args)
+			enc.Encode(map[string]any{"c": l, "o": c16OutObsOf(st, cl, res, proto)})
+		case "conc":
+			if n := len(conc); n == 0 || conc[n-1][0].Procs != l.Procs {
+				conc = append(conc, nil)
 			}
-			st.cur, st.plain = l, c16Untag(l.Out)
-			res, proto := call(c16Session(t, sessions, l.Cache), name, "{}")
-			o := c16OutObs{Ran: st.calls > 0, Proto: proto, Sc: c16Null, Texts: []any{}}
-			if res != nil {
-				o.IsError = res.IsError
-				if res.StructuredContent != nil {
-					o.HasSc = true
-					o.Sc = c16Tag(res.StructuredContent)
-				}
-				for _, ct := range res.Content {
-					tc, ok := ct.(*mcp.TextContent)
-					if !ok {
-						o.Texts = append(o.Texts, []any{"bad", 0})
-						continue
-					}
-					var v any
-					if err := json.Unmarshal([]byte(tc.Text), &v); err != nil {
-						o.Texts = append(o.Texts, []any{"bad", 0})
-					} else {
-						o.Texts = append(o.Texts, c16Tag(v))
-					}
-				}
-			}
-			enc.Encode(map[string]any{"c": l, "o": o})
+			conc[len(conc)-1] = append(conc[len(conc)-1], l)
+		}
+	}
+	// concurrent scenarios: several calls in flight on one server, steps in the TLC-generated order
+	for _, run := range conc {
+		for _, row := range c16RunConc(t, r, schemas, run, run[0].Procs) {
+			enc.Encode(row)
 		}
 	}
 }
